@@ -139,6 +139,22 @@ def oracle_linkpair(case):
                 out.append(('is_eql disagrees with "the same link or its complement"', same, bool(a.is_eql(b))))
             if (str(a), str(b)) != (sa, sb):
                 out.append(('equivalence tests changed a link', [sa, sb], [str(a), str(b)]))
+        if valid(case['b']):
+            # lookup compatibility: the same oriented pair in direct or complement form; an unspecified overlap on
+            # either side matches any overlap, two specified overlaps must be equal (complemented in complement form)
+            fa, foa, ta, toa, ova = case['a'][:5]
+            fb, fob, tb, tob, ovb = case['b'][:5]
+            def ov_ok(x, y):
+                return x == '*' or y == '*' or x == y
+            comp_ov = '*' if ova == '*' else str(a.overlap.complement())
+            direct = (fa, foa, ta, toa) == (fb, fob, tb, tob) and ov_ok(ova, ovb)
+            compl = (ta, INV[toa], fa, INV[foa]) == (fb, fob, tb, tob) and ov_ok(comp_ov, ovb)
+            got = impl.outcome(lambda: (bool(a.is_compatible_direct(b.oriented_from, b.oriented_to, b.overlap)),
+                                        bool(a.is_compatible_complement(b.oriented_from, b.oriented_to, b.overlap)),
+                                        bool(a.is_compatible(b.oriented_from, b.oriented_to, b.overlap, True))))
+            if got[0] == 'ok' and got[1] != (direct, compl, direct or compl):
+                out.append(('is_compatible_direct/complement/is_compatible disagree with "same oriented pair in direct or complement '
+                            'form, unspecified overlaps match anything"', (direct, compl, direct or compl), got[1]))
     return out
 
 
@@ -311,9 +327,14 @@ def run(ctx, deep, model_ok):
     for spec in specs:
         if impl.outcome(lambda: mk(spec))[0] != 'ok':
             continue
-        kind = rng.randrange(4)
+        kind = rng.randrange(6)
         if kind == 0:
             b = list(spec)
+        elif kind in (4, 5):
+            # the same adjacency asked for with an unspecified overlap, in direct or in complement form
+            r = impl.outcome(lambda: mk(spec).complement())
+            b = (list(core_of(r[1])) + [spec[5]]) if (kind == 5 and r[0] == 'ok') else list(spec)
+            b[4] = '*'
         elif kind == 1:
             r = impl.outcome(lambda: mk(spec).complement())
             b = (list(core_of(r[1])) + [spec[5]]) if r[0] == 'ok' else list(spec)
